@@ -61,9 +61,10 @@ class CacheNotIsolated(Exception):
 
 class WalkSys:
     def __init__(self, *, universe="H5", values=("S", "L"), prune=False, use_cache=False, max_mut=1, seed=0, init="all", batch_mut=False,
-                 mut_values=("S", "L")):
+                 mut_values=("S", "L"), root_via="traverse"):
         self.kw = dict(universe=universe, values=list(values), prune=prune, use_cache=use_cache, max_mut=max_mut, seed=seed, init=init,
-                       batch_mut=batch_mut, mut_values=list(mut_values))
+                       batch_mut=batch_mut, mut_values=list(mut_values), root_via=root_via)
+        self.root_via = root_via
         self.labels = alphabet.Labels(seed)
         self.keys = self.labels.keys(universe)
         self.vals = [self.labels.value(v) for v in values]
@@ -198,6 +199,8 @@ class WalkSys:
                         cached = None
                 if cached is not None:
                     node = t.traverse_from(cached[0], cached[1])
+                elif self.root_via == "root_node" and len(p) > 0:
+                    node = t.traverse_from(t.root_node, p)  # "from the root" the other way: the root's body, then the prefix
                 else:
                     node = t.traverse(p)
             except TraversedPartialPath as e:
